@@ -473,7 +473,7 @@ func execC02Garbage(ctx *core.Ctx, ref core.CaseRef, r *rand.Rand) {
 		}
 	}
 	c.Rows = clean
-	c.Feed = "step"
+	c.Feed = pick(r, []string{"step", "step", "burst"}) // ignoring must not depend on the trigger goroutine having caught up
 	c.Pattern = "garbage"
 	var max int64
 	for _, row := range clean {
